@@ -303,6 +303,28 @@ def rule_6(ctx):
     c03.rule_7(ctx)
 
 
+def rule_7(ctx):
+    """The reference workbook (three sheets - one title a prefix of another, one with an apostrophe - defined names, the same
+    formula texts on several sheets) loaded through Reader / parse_archive as written from a modelled openpyxl workbook that
+    stores formulas with their cached results: get_cell_value returns the cached result before any evaluation, and evaluating
+    the loaded model reproduces every cached result, in both evaluation orders."""
+    from . import scenarios as S
+    from . import workbook as W
+    anchor = ctx.mod('reader').func('Reader.read_cells')
+    cached = {k: v for k, v in S.REF_EXPECTED.items() if '!' in k}
+    wb = W.Workbook(ctx, sheets=S.REF_SHEETS, names=S.REF_NAMES, cached=cached)
+    n = 0
+    for addr, want in cached.items():
+        got = wb.get(addr)
+        n += 1
+        ctx.expect(S.same(got, want), anchor, f'cached result of {addr} before any evaluation',
+                   f'get_cell_value({addr!r}) returns {got!r} right after loading, the workbook stores the cached result {want!r}')
+    n += S.check_reference_workbook(ctx, anchor, 'loaded workbook',
+                                    'Evaluating the loaded model gives the values the workbook itself stores (the same as a model built directly '
+                                    'from the same cell contents).')
+    ctx.floor(60, 'loaded-workbook cells')
+
+
 RULES = [
     ('C11.1', 'ignored sheets contribute no cells', rule_1),
     ('C11.2', 'defined names honour ignore_sheets', rule_2),
@@ -310,4 +332,5 @@ RULES = [
     ('C11.4', 'defined-name targets are normalised like cell keys', rule_4),
     ('C11.5', 'build order of parse_archive', rule_5),
     ('C11.6', 'range targets of defined names are unquoted by the address resolvers (shared with C03.7)', rule_6),
+    ('C11.7', 'reference workbook loaded through the reader path: cached results, evaluation reproduces them', rule_7),
 ]
